@@ -102,7 +102,7 @@ def native_replay(harness, data_bytes, repo="/repo", timeout=900):
     out = p.stdout + p.stderr
     m = re.search(r"VK_REPLAY_RESULT (\S+) (.*)", out)
     panicked = re.search(r"panicked at (.*?):\n(.*)", out)
-    return dict(ran=True, cmd="VK_REPLAY=" + env["VK_REPLAY"] + " RUSTFLAGS='--cfg icy_engine_verif' " + " ".join(cmd),
+    return dict(ran=True, cmd="cd /repo && CARGO_TARGET_DIR=" + REPLAY_TARGET + " VK_REPLAY=" + env["VK_REPLAY"] + " RUSTFLAGS='--cfg icy_engine_verif' " + " ".join(cmd),
                 result_line=m.group(0) if m else None,
                 panicked=bool(panicked), panic=(panicked.group(1) + ": " + panicked.group(2)) if panicked else None,
                 reproduced=bool(panicked) and not m, tail=out[-1500:])
